@@ -240,7 +240,12 @@ func (c *vacCase) run() {
 	}
 	// the vacuuming connection: an existing writer (refreshed) or a new connection opened now
 	vdb, vt := dbs[0], tabs[0]
-	if nw == 1 && (cachedReturn || c.r.Chance(1, 2)) {
+	if nw == 2 && c.r.Chance(1, 3) {
+		// writer 0 vacuums without having seen what writer 1 committed: whatever it deletes, the merged
+		// view of the table (what a connection opened afterwards sees) must stay as it is (F43)
+		c.note("vacuum from writer 0, not refreshed, while writer 1 has versions of its own")
+		c.st.Count("vacuum_by_stale_writer")
+	} else if nw == 1 && (cachedReturn || c.r.Chance(1, 2)) {
 		// the one writer vacuums as it is: its node cache (if any) has seen every node it ever stored
 		c.note("vacuum from the only writer, not refreshed")
 		c.st.Count("vacuum_by_unrefreshed_writer")
@@ -270,16 +275,33 @@ func (c *vacCase) run() {
 	case pick == 1:
 		cutoff = time.Now().Add(time.Hour)
 		c.st.Count("cutoff_future")
+	case pick == 2 && c.r.Chance(1, 2):
+		// beyond what int64 nanoseconds can express (F45)
+		cutoff = gen.Pick(c.r, []time.Time{time.Date(2300, 1, 1, 0, 0, 0, 0, time.UTC), time.Date(9999, 12, 31, 23, 59, 59, 0, time.UTC), time.Date(1000, 1, 1, 0, 0, 0, 0, time.UTC), time.Date(2262, 4, 12, 0, 0, 0, 0, time.UTC)})
+		c.st.Count("cutoff_out_of_int64_range")
 	default:
 		cutoff = gen.Pick(c.r, marks)
 		c.st.Count("cutoff_between")
 	}
 	c.note(fmt.Sprintf("cutoff index %d of %d marks", sort.Search(len(marks), func(i int) bool { return !marks[i].Before(cutoff) }), len(marks)))
 	rowsBefore := sqlh.QS(vdb, fmt.Sprintf(`select k,a from "%s" order by k`, vt))
+	freshBefore, ferr := c.freshRows()
+	if ferr != nil {
+		c.fail("fresh open before the vacuum: " + ferr.Error())
+		return
+	}
+	// sometimes the vacuum runs inside a transaction that has written to the table without changing it,
+	// and the transaction is rolled back afterwards (F44)
+	cleanTxn := c.r.Chance(1, 5)
+	if cleanTxn {
+		sqlh.Exec(vdb, "begin")
+		sqlh.Exec(vdb, fmt.Sprintf(`delete from "%s" where k=?`, vt), -12345)
+		c.note("vacuum inside a transaction that changed nothing; rolled back afterwards")
+		c.st.Count("vacuum_in_clean_transaction")
+	}
 	entBefore := entries(vt)
 	snap := c.store.Snapshot()
-	cl := sqlh.LastClient()
-	_, m0 := cl.Counts()
+	l0 := c.store.LogLen()
 	if os.Getenv("VAC_TRACE") != "" {
 		fmt.Fprintln(os.Stderr, "BEFORE", entBefore, "cutoff", cutoff.UnixNano(), "rows", rowsBefore)
 		fmt.Fprintln(os.Stderr, "FULL", entriesFull(vt))
@@ -294,8 +316,18 @@ func (c *vacCase) run() {
 		fmt.Fprintln(os.Stderr, "FULL", entriesFull(vt))
 		fmt.Fprintln(os.Stderr, "LIST", entriesList(vt))
 	}
-	_, m1 := cl.Counts()
-	total := m1 - m0
+	if cleanTxn {
+		if err := sqlh.Exec(vdb, "rollback"); err != nil {
+			c.fail("rollback after the vacuum: " + err.Error())
+			return
+		}
+	}
+	total := 0
+	for _, q := range c.store.Log()[l0:] {
+		if q.Mutation() && q.Err == "" {
+			total++
+		}
+	}
 	c.st.Evaluations++
 	c.st.Count(fmt.Sprintf("vacuum_mutations_%d", min(total, 20)/5*5))
 	check := func(stage string) bool {
@@ -305,7 +337,7 @@ func (c *vacCase) run() {
 			// cache sees rows again that were inserted into that node afterwards (deleted since), while the
 			// bucket, and hence every other reader, is right
 			if c.cache > 0 && c.st.known("F42") && isSuperset(got, rowsBefore) {
-				if fr, err := c.freshRows(); err == nil && fr == rowsBefore {
+				if fr, err := c.freshRows(); err == nil && fr == freshBefore {
 					c.st.Count("known_F42")
 					return false
 				}
@@ -314,8 +346,8 @@ func (c *vacCase) run() {
 			return false
 		}
 		fr, err := c.freshRows()
-		if err != nil || fr != rowsBefore {
-			c.fail(fmt.Sprintf("%s: a connection opened afterwards sees %q (err %v), want %q", stage, fr, err, rowsBefore))
+		if err != nil || fr != freshBefore {
+			c.fail(fmt.Sprintf("%s: a connection opened afterwards sees %q (err %v), want %q", stage, fr, err, freshBefore))
 			return false
 		}
 		if d := c.dangling("p/s3db-rows/root/current/"); len(d) > 0 {
@@ -421,8 +453,8 @@ func (c *vacCase) run() {
 			db.Close()
 			c.st.Count("vacuum_crash_runs")
 			fr, err := c.freshRows()
-			if err != nil || fr != rowsBefore {
-				c.fail(fmt.Sprintf("vacuum crashed after %d of %d mutations: a later open sees %q (err %v), want %q", k, total, fr, err, rowsBefore))
+			if err != nil || fr != freshBefore {
+				c.fail(fmt.Sprintf("vacuum crashed after %d of %d mutations: a later open sees %q (err %v), want %q", k, total, fr, err, freshBefore))
 				return
 			}
 			if d := c.dangling("p/s3db-rows/root/current/"); len(d) > 0 {
@@ -464,12 +496,12 @@ func (c *vacCase) run() {
 		}
 		c.st.Count("vacuum_fault_runs")
 		stage := fmt.Sprintf("vacuum with mutation %d failing once (vacuum answered %v)", k, verr)
-		if got := sqlh.QS(db, fmt.Sprintf(`select k,a from "%s" order by k`, t2)); got != rowsBefore {
-			c.fail(fmt.Sprintf("%s: rows through the vacuuming connection changed: %q -> %q", stage, rowsBefore, got))
+		if got := sqlh.QS(db, fmt.Sprintf(`select k,a from "%s" order by k`, t2)); got != freshBefore {
+			c.fail(fmt.Sprintf("%s: rows through the vacuuming connection changed: %q -> %q", stage, freshBefore, got))
 		} else if err := sqlh.Exec(db, fmt.Sprintf(`insert into "%s" values(?,?)`, t2), 9998, "after-fault"); err != nil {
 			c.fail(fmt.Sprintf("%s: the vacuuming connection cannot write any more: %v", stage, err))
-		} else if fr, err := c.freshRows(); err != nil || !strings.Contains(fr, "I:9998") || strings.Replace(fr, " | I:9998,T:61667465722d6661756c74", "", 1) != rowsBefore && fr != "I:9998,T:61667465722d6661756c74" {
-			c.fail(fmt.Sprintf("%s: a connection opened afterwards sees %q (err %v), want %q plus the row written after the fault", stage, fr, err, rowsBefore))
+		} else if fr, err := c.freshRows(); err != nil || !strings.Contains(fr, "I:9998") || strings.Replace(fr, " | I:9998,T:61667465722d6661756c74", "", 1) != freshBefore && fr != "I:9998,T:61667465722d6661756c74" {
+			c.fail(fmt.Sprintf("%s: a connection opened afterwards sees %q (err %v), want %q plus the row written after the fault", stage, fr, err, freshBefore))
 		} else if d := c.dangling("p/s3db-rows/root/current/"); len(d) > 0 {
 			c.fail(fmt.Sprintf("%s: the current version refers to deleted objects: %v", stage, d[:min(len(d), 3)]))
 			if os.Getenv("VAC_TRACE") != "" {
@@ -494,7 +526,7 @@ func vacCmd(args []string) int {
 	fs.Parse(args)
 	setKnown(*kn)
 	st := NewStats("vac", *seed)
-	st.Rule = "histories of 4-18 steps by 1-2 writers (inserts, deletes, insert-then-delete and update-and-back so that old and new versions share content-addressed nodes, delete-then-re-insert, multi-row transactions, merging refreshes; entries_per_node in {2,4,4096}, node_cache_entries in {0,16,1000}), then s3db.Vacuum from an old or a new connection with a cutoff in the past, in the future, or at one of the instants recorded between the steps; checks: rows unchanged through the vacuuming and a fresh connection, no version object in root/current or root/merged reaches a missing node, exactly the delete markers older than the cutoff are gone and every other entry is byte-for-byte as before, future cutoff leaves no superseded version, a repeated vacuum changes nothing, a further vacuum with a cutoff in the future leaves rows and reachability intact, the table stays writable, every single storage fault inside vacuum with the same connection used afterwards, and EVERY crash point inside vacuum (restore, crash after k mutations, re-open); distinct = distinct history (all non-trivial)"
+	st.Rule = "histories of 4-18 steps by 1-2 writers (inserts, deletes, insert-then-delete and update-and-back so that old and new versions share content-addressed nodes, delete-then-re-insert, multi-row transactions, merging refreshes; entries_per_node in {2,4,4096}, node_cache_entries in {0,16,1000}), then s3db.Vacuum from an old or a new connection with a cutoff in the past, in the future, outside the range of int64 nanoseconds (years 1000, 2262, 2300, 9999), or at one of the instants recorded between the steps; the vacuuming connection is new, a refreshed writer, the only writer unrefreshed, or a stale writer that has not seen the other writer's versions; one vacuum in five runs inside a transaction that changed nothing and is rolled back afterwards; checks: rows unchanged through the vacuuming and a fresh connection, no version object in root/current or root/merged reaches a missing node, exactly the delete markers older than the cutoff are gone and every other entry is byte-for-byte as before, future cutoff leaves no superseded version, a repeated vacuum changes nothing, a further vacuum with a cutoff in the future leaves rows and reachability intact, the table stays writable, every single storage fault inside vacuum with the same connection used afterwards, and EVERY crash point inside vacuum (restore, crash after k mutations, re-open); distinct = distinct history (all non-trivial)"
 	isChild, from, to := childRange()
 	if !isChild {
 		NewEmitter(*outp+".ops", *outp+".exp").Close()
